@@ -123,7 +123,7 @@ def text_method(interp, recv, tg, name, args, kwargs):
 
 def _sep_free(ctx, part, sep):
     f = z3.Not(z3.Contains(part, sep))
-    if ctx.known(f):
+    if ctx.known(f) or S.b64u_free_of(part, sep):
         return True
     if S.is_rep_of(part, "=") and _lit(sep) not in (None, "="):
         return True
